@@ -274,6 +274,69 @@ theorem spacing_set_nonblank_chars (store new : List Tk) (first last : Nat) (sid
   rw [h2]; conv => rhs; rw [h1]
   simp [textOf_append, List.filter_append, e1, e2]
 
+/-! ## histories of assignments -/
+
+/-- One assignment of a history: the model's first / last token ids, the side, the new blank tokens. -/
+abbrev SpOp := Nat × Nat × Side × List Tk
+
+/-- The store after a history of spacing assignments. -/
+def runSpacing (store : List Tk) (ops : List SpOp) : List Tk :=
+  ops.foldl (fun s op => setSpacing s op.1 op.2.1 op.2.2.1 op.2.2.2) store
+
+/-- **Any history** of spacing assignments - on any models, either side, in any order, old runs empty or not - leaves
+every token that is not `Newline`/`Whitespace` in place with its identity, text and order, provided each assignment is
+anchored at a non-blank token of the document (a model's first / last token) and writes blank-class tokens only.  (The
+anchors stay in the store *because* of the invariant, which is why the statement is about whole histories.) -/
+theorem spacing_history_nonblank_tokens (store : List Tk) (ops : List SpOp)
+    (hanch : ∀ op ∈ ops, ∃ t ∈ store, t.isBlankKind = false ∧ t.id = anchor op.1 op.2.1 op.2.2.1)
+    (hnew : ∀ op ∈ ops, ∀ t ∈ op.2.2.2, t.isBlankKind = true) :
+    (runSpacing store ops).filter (fun t => !t.isBlankKind) = store.filter (fun t => !t.isBlankKind) := by
+  induction ops generalizing store with
+  | nil => rfl
+  | cons op ops ih =>
+    obtain ⟨t, ht, _, hid⟩ := hanch op (by simp)
+    have hstep := spacing_set_nonblank_tokens store op.2.2.2 op.1 op.2.1 op.2.2.1 ⟨t, ht, hid⟩ (hnew op (by simp))
+    have hrun : runSpacing store (op :: ops) = runSpacing (setSpacing store op.1 op.2.1 op.2.2.1 op.2.2.2) ops := rfl
+    rw [hrun, ih _ ?_ (fun o ho => hnew o (by simp [ho])), hstep]
+    intro o ho
+    obtain ⟨u, hu, hub, huid⟩ := hanch o (by simp [ho])
+    refine ⟨u, ?_, hub, huid⟩
+    have : u ∈ store.filter (fun t => !t.isBlankKind) := by simp [hu, hub]
+    rw [← hstep] at this
+    exact (List.mem_filter.1 this).1
+
+/-- ... and the non-blank characters of the printed document, in order, are those of the start (same side conditions as
+`spacing_set_nonblank_chars`, for every step). -/
+theorem spacing_history_nonblank_chars (store : List Tk) (ops : List SpOp)
+    (hanch : ∀ op ∈ ops, ∃ t ∈ store, t.isBlankKind = false ∧ t.id = anchor op.1 op.2.1 op.2.2.1)
+    (hnew : ∀ op ∈ ops, ∀ t ∈ op.2.2.2, t.isBlankKind = true ∧ ∀ c ∈ t.text, isBlankChar c = true)
+    (hstore : ∀ t ∈ store, t.isBlankKind = true → ∀ c ∈ t.text, isBlankChar c = true) :
+    (textOf (runSpacing store ops)).filter (fun c => !isBlankChar c) = (textOf store).filter (fun c => !isBlankChar c) := by
+  induction ops generalizing store with
+  | nil => rfl
+  | cons op ops ih =>
+    obtain ⟨t, ht, _, hid⟩ := hanch op (by simp)
+    have hA : ∃ t ∈ store, t.id = anchor op.1 op.2.1 op.2.2.1 := ⟨t, ht, hid⟩
+    have hstep := spacing_set_nonblank_tokens store op.2.2.2 op.1 op.2.1 op.2.2.1 hA (fun x hx => (hnew op (by simp) x hx).1)
+    have hchars := spacing_set_nonblank_chars store op.2.2.2 op.1 op.2.1 op.2.2.1 hA hstore (fun x hx => (hnew op (by simp) x hx).2)
+    have hrun : runSpacing store (op :: ops) = runSpacing (setSpacing store op.1 op.2.1 op.2.2.1 op.2.2.2) ops := rfl
+    rw [hrun, ih _ ?_ (fun o ho => hnew o (by simp [ho])) ?_, hchars]
+    · intro o ho
+      obtain ⟨u, hu, hub, huid⟩ := hanch o (by simp [ho])
+      refine ⟨u, ?_, hub, huid⟩
+      have : u ∈ store.filter (fun t => !t.isBlankKind) := by simp [hu, hub]
+      rw [← hstep] at this
+      exact (List.mem_filter.1 this).1
+    · -- blank tokens of the new store are old blank tokens or new ones
+      obtain ⟨A, old, B, h1, h2, _, _⟩ := spacing_set_frame store op.2.2.2 op.1 op.2.1 op.2.2.1 hA
+      intro x hx hxb
+      rw [h2] at hx
+      simp only [List.mem_append] at hx
+      rcases hx with (hx | hx) | hx
+      · exact hstore x (by rw [h1]; simp [hx]) hxb
+      · exact (hnew op (by simp) x hx).2
+      · exact hstore x (by rw [h1]; simp [hx]) hxb
+
 /-! ## reading back -/
 
 /-- **`spacing_readback` (tokens).**  A non-empty replacement made of non-empty `Newline`/`Whitespace` tokens (whose ids
@@ -399,5 +462,13 @@ example : (textToTokens 0 " \t\r\r\n\n  ".toList).map (fun t => (t.kind, String.
 example : (textToTokens 0 "\r\r x\r\n".toList).map (fun t => (t.kind, String.ofList t.text)) =
     [(.whitespace, " "), (.newline, "\r\n")] := by decide
 example : spacingLang " \t\r\r\n\n  ".toList = true ∧ spacingLang "\r \n".toList = false := by decide
+
+/-- A three-step history on the example document meets the hypotheses of `spacing_history_nonblank_tokens` (anchors 5 / 12 / 1
+are non-blank tokens of the start document, every step writes blank tokens), and its non-blank tokens are untouched. -/
+private def hist : List SpOp :=
+  [(1, 5, .after, [N 100 "\n"]), (12, 13, .before, [W 101 "  ", N 102 "\n"]), (1, 1, .after, [])]
+example : ∀ op ∈ hist, ∃ t ∈ doc, t.isBlankKind = false ∧ t.id = anchor op.1 op.2.1 op.2.2.1 := by decide
+example : ∀ op ∈ hist, ∀ t ∈ op.2.2.2, t.isBlankKind = true := by decide
+example : (runSpacing doc hist).filter (fun t => !t.isBlankKind) = doc.filter (fun t => !t.isBlankKind) := by decide
 
 end Autobean.C17
